@@ -18,7 +18,7 @@ CALIB = os.path.join(core.VERIF, "calib", "C06.json")
 KINDS = {
     "vertex_perm": "exact", "triangle_rotation": "exact", "rename": "exact", "boundary_order": "exact",
     "interface_order": "exact", "format_off": "exact", "format_bnd": "exact", "api": "exact", "syntax": "exact",
-    "cond_order": "exact", "mesh_flip": "exact",
+    "cond_order": "exact", "mesh_flip": "exact", "local_flips": "exact",
     "domain_order": "exact",
     "triangle_order": "asym", "mesh_order": "asym",
     "format_mesh32": "exact32",
@@ -89,7 +89,7 @@ def sources_sensors(m, rng, nd=4, ns=12):
 def variant(m, rng, kind):
     """(model, fmt, style, api?, cond_rng) for a re-description kind"""
     fmt, style, api = "tri", "1.1", False
-    if kind in ("vertex_perm", "triangle_rotation", "rename", "boundary_order", "interface_order", "triangle_order", "mesh_order", "domain_order", "mesh_flip"):
+    if kind in ("vertex_perm", "triangle_rotation", "rename", "boundary_order", "interface_order", "triangle_order", "mesh_order", "domain_order", "mesh_flip", "local_flips"):
         v = gd.redescribe(m, rng, kind)
     elif kind == "format_off": v, fmt = m, "off"
     elif kind == "format_bnd": v, fmt = m, "bnd"
